@@ -152,6 +152,26 @@ def main():
         try:
             if cmd["op"] == "copy":
                 res = do_copy(protos, cmd)
+            elif cmd["op"] == "construct":
+                made = []
+                for pname, d in protos.items():
+                    for (fmt, role), cls in d.items():
+                        if role == "Writer":
+                            w = cls(io.BytesIO() if fmt == "Binary" else io.StringIO())
+                            made.append(cls.__name__)
+                for sub in ("binary", "ndjson"):
+                    sm = importlib.import_module(pkg + "." + sub)
+                    for name in dir(sm):
+                        obj = getattr(sm, name)
+                        if isinstance(obj, type) and obj.__module__ == sm.__name__ and (name.endswith("Serializer") or name.endswith("Converter")):
+                            try:
+                                obj()
+                                made.append(name)
+                            except TypeError:
+                                pass   # generic serializers need element serializers
+                tm = importlib.import_module(pkg + ".types")
+                names = [n for n in dir(tm) if not n.startswith("_")]
+                res = {"ok": True, "made": made, "type_names": names}
             elif cmd["op"] == "schema":
                 p = protos[cmd["proto"]]
                 res = {"ok": True, "schema": p[("Binary", "Writer")].schema}
